@@ -61,6 +61,34 @@ CLAIMED = {
    "reference model target -> last assigned style on the same two nodes: a per-run pool of 10 styles drawn from the attribute space (40 number-format codes including built-in ones in other letter case, font name/family/scheme/size, five border sides in nine line styles, diagonal flags, fills, eight horizontal and five vertical alignments, wrap, quote prefix) is assigned to cells, rows and columns of the bare Model and, through on_paste_styles, to cell ranges of the session, interleaved with every other operation, restarts and (fixture-imported) style pools that shadow built-in number-format ids; after every event every tracked target must read back exactly the style last assigned to it, which also decides the no-aliasing clause (an assignment to one target must not change what another reads). Sampling, not proof.",
    "a tracked target is dropped when an event may legitimately restyle it (typing into it, a style/border/clear operation over it or next to it, any structural edit, paste, undo/redo); styles parented to named styles are exercised only as far as fixtures and ApplyNamedStyle events bring them",
    "deterministic simulation: seeded histories of style assignments interleaved with other operations and restarts, read-back against a last-assignment reference model", "6 C30"),
+ "C12": ("exploration",
+   "reference displacement model (DESIGN Appendix B, sim/src/structural.rs): an independent re-implementation on absolute coordinates of what insert_rows / insert_columns must do, applied after every successful insertion of seeded histories (workbook built from inputs of every type, formulas with relative/absolute/mixed/cross-sheet references, ranges, whole rows/columns, names, dynamic arrays, links, styles; insertions at drawn positions and counts on any sheet, undo/redo in between) to (a) every cell: content, kind, typed value, style and link found at the mapped position, nothing appearing from nowhere; (b) every reference leaf of every formula, by walking the engine's own parsed trees before and after: same shape, every leaf at the mapped target with the same $ flags, ranges that receive the band grow, leaves pushed off the grid are #REF!; (c) the typed value of every eligible formula is unchanged. Sampling, not proof.",
+   "eligible formulas = plain (non-array) formulas all of whose leaves the model constrains, that contain no name / lambda / table / implicit-intersection / spill-range node, are on no dependency cycle and read (transitively, in the state before and in the state after) no array, dynamic array or ineligible formula; conditional-format priorities, the style of a freshly inserted blank band and sizes of inserted lines are not asserted",
+   "deterministic simulation: seeded histories, reference displacement model applied operation by operation to cells, parsed formula trees and values", "6 C12 + Appendix B"),
+ "C13": ("exploration",
+   "as C12 for delete_rows / delete_columns: cells outside the band at their shifted position; references into the band are #REF!; references and ranges disjoint from the band shift; ranges intersecting the band (and whole rows/columns) are left unconstrained, as the statement leaves them; formulas none of whose leaves touches the band keep their typed value.",
+   "eligible formulas = plain (non-array) formulas all of whose leaves the model constrains, that contain no name / lambda / table / implicit-intersection / spill-range node, are on no dependency cycle and read (transitively, in the state before and in the state after) no array, dynamic array or ineligible formula; conditional-format priorities, the style of a freshly inserted blank band and sizes of inserted lines are not asserted",
+   "deterministic simulation: seeded histories, reference displacement model applied operation by operation to cells, parsed formula trees and values", "6 C13 + Appendix B"),
+ "C14": ("exploration",
+   "event InsertThenDelete(sheet, axis, p, k) injected at 25% of the steps of seeded histories (positions 1..12 and the grid edge); precondition computed on the state before (no cell, reference leaf, descriptor, link or conditional-format range within k lines of the edge on that axis); oracle: the full observable snapshot (contents, kinds, typed values, formula texts, styles, links, row/column sizes, hidden flags and styles, conditional formats, names) before == after.",
+   "cases whose precondition fails are counted and skipped; known value-history defects of array formulas (cycles, competing spills) are reported as known findings",
+   "deterministic simulation: seeded histories with injected insert-then-delete pairs, snapshot identity", "6 C14"),
+ "C15": ("exploration",
+   "as C12 for move_rows_action / move_columns_action with the permutation of the axis: cells, styles, links and row/column descriptors at the permuted position; single references, and ranges lying entirely in the moved block, entirely in the shifted band or entirely outside both, follow; eligible formulas keep their values. The session widens the offset by the hidden lines it jumps over: every offset between the requested one and the requested one plus the number of hidden lines on the way is tried and the operation passes iff the whole post-state is one of those permutations of the pre-state.",
+   "eligible formulas = plain (non-array) formulas all of whose leaves the model constrains, that contain no name / lambda / table / implicit-intersection / spill-range node, are on no dependency cycle and read (transitively, in the state before and in the state after) no array, dynamic array or ineligible formula; conditional-format priorities, the style of a freshly inserted blank band and sizes of inserted lines are not asserted; column descriptors in run-length form (more than 64 equal columns) are not mapped line by line",
+   "deterministic simulation: seeded histories, axis permutation model applied to cells, descriptors, parsed formula trees and values", "6 C15 + Appendix B"),
+ "C16": ("exploration",
+   "select, copy_to_clipboard (through serde, as the bindings do), select target, paste_from_clipboard, on the same or another sheet, overlapping or not, in every language/locale of the swarm. Cut: translation model on the selected area: pasted cells equal the originals (kind, content, typed value, style, link), the source is empty where the paste did not write, every reference leaf anywhere in the workbook into the area (ranges: both corners) points at the new place, leaves of moved formulas to cells left behind keep their absolute target, eligible formulas keep their values. Copy: the stored (relative) tree of every pasted formula equals its source's, leaf by leaf, except leaves whose shifted target leaves the grid, which must be #REF!.",
+   "eligible formulas = plain (non-array) formulas all of whose leaves the model constrains, that contain no name / lambda / table / implicit-intersection / spill-range node, are on no dependency cycle and read (transitively, in the state before and in the state after) no array, dynamic array or ineligible formula; conditional-format priorities, the style of a freshly inserted blank band and sizes of inserted lines are not asserted; the session clamps the copied range to the used range of the sheet: when the differences are explained by that alone they are reported as the known finding KF-C16-CUT-AREA-CLAMPED",
+   "deterministic simulation: seeded histories with clipboard operations, translation model on cells, parsed formula trees and values", "6 C16 + Appendix B"),
+ "C17": ("exploration",
+   "rename_sheet / move_sheet / duplicate_sheet with names that need quoting, in workbooks with cross-sheet references, references to nonexistent sheets, global and sheet-local names: typed values of all eligible formulas unchanged (at the permuted sheet index after a move, on source and copy after a duplication); after a rename every formula tree equals the tree before with exactly the leaves naming the renamed sheet showing the new name (wrong-reference leaves naming other sheets included).",
+   "eligible formulas = plain (non-array) formulas all of whose leaves the model constrains, that contain no name / lambda / table / implicit-intersection / spill-range node, are on no dependency cycle and read (transitively, in the state before and in the state after) no array, dynamic array or ineligible formula; conditional-format priorities, the style of a freshly inserted blank band and sizes of inserted lines are not asserted; a wrong-reference leaf naming the new name may come alive",
+   "deterministic simulation: seeded histories with sheet operations, tree equality modulo the renamed leaves, value preservation", "6 C17"),
+ "C33": ("exploration",
+   "the displacement / permutation / translation models of C12-C16 applied to link keys, to the corners of every part of every conditional-format range and (parsing rule formulas with the English parser relative to the top-left cell of the range) to the reference leaves of rule formulas, on every sheet, after every insert / delete / move / cut of seeded histories dense in links and conditional formats; clearing contents (range_clear_contents, range_clear_all, empty input) removes the link, and undo of the clear brings it back.",
+   "range parts and rule leaves the model leaves unconstrained (intersecting a deleted band, straddling a moved block or a cut area) are counted, not asserted",
+   "deterministic simulation: seeded histories, reference displacement model applied to links, conditional-format ranges and rule formulas", "6 C33 + Appendix B"),
  "C01": ("exploration",
    "seeded deterministic simulation of editing histories (swarm-selected operation families, 3-40 events, undo/redo interleaved, hash seed and clock owned by the simulator) checked event by event against a history-cursor reference model over the observable snapshot; every violation is minimised and replays from a file. Sampling, not proof.",
    "bounds of DESIGN 2.2; 'observable' = the snapshot of DESIGN 3; open genuine defects are listed in known_findings.json and reported as KNOWN-FINDING",
